@@ -15,8 +15,13 @@ structure State where
   now : Int := 0
   cut : Meta := {}
 
+/-- an op-line instant; a trailing `~` says the WALL clock had been stepped back when
+it was read. Leases are elapsed time: the model ignores the mark. -/
+def parseI (s : String) : Option Int :=
+  if s.endsWith "~" then (s.dropEnd 1).toString.toInt? else s.toInt?
+
 def parseT (s : String) : Option Deadline :=
-  if s == "z" then some none else s.toInt?.map some
+  if s == "z" then some none else (parseI s).map some
 
 def showT : Deadline → String
   | none => "z"
@@ -41,7 +46,7 @@ def step (st : State) (w : List String) : State × String :=
   | ["mc", "new"] | ["mnz", "new"] | ["mttl", "new"] | ["nsttl", "new"] | ["lease", "new"] | ["rem", "new"] | ["repl", "new"] => (st, "ok")
   | ["ac", "new"] => ({ st with ac := {}, now := 0 }, "ok")
   | ["ac", "now", t] =>
-    match t.toInt? with
+    match parseI t with
     | some v => ({ st with now := v }, "ok")
     | none => (st, "bad-op")
   | ["ac", "set", k, tag, ttl] =>
@@ -85,7 +90,7 @@ def step (st : State) (w : List String) : State × String :=
       (st, s!"{r.1} {boolStr r.2.1} {boolStr r.2.2}")
     | none => (st, "bad-op")
   | ["lease", obs, ns, ds, cut, ck, key, now2] =>
-    match obs.toInt?, ns.toNat?, parseList ds, parseT cut, ck.toNat?, key.toNat?, now2.toInt? with
+    match parseI obs, ns.toNat?, parseList ds, parseT cut, ck.toNat?, key.toNat?, parseI now2 with
     | some obs, some ns, some ds, some cut, some ck, some key, some now2 =>
       let c := childCut maxTTL cut ck obs ns ds key
       let ac := ({} : ACache).setUntil maxTTL now2 key 1 c.1
@@ -112,7 +117,7 @@ def step (st : State) (w : List String) : State × String :=
       | none => (st, "replaced=f none")
     | _, _ => (st, "bad-op")
   | ["rem", stored, ttl, cut, now] =>
-    match stored.toInt?, ttl.toInt?, parseT cut, now.toInt? with
+    match parseI stored, ttl.toInt?, parseT cut, parseI now with
     | some stored, some ttl, some cut, some now => (st, toString (remaining stored ttl cut now))
     | _, _, _, _ => (st, "bad-op")
   | "l3" :: _ => (st, "unmodelled")
